@@ -39,7 +39,7 @@ import (
 )
 
 type member struct {
-	Mode  string `json:"mode"`            // "kill" | "live" | "hold-kill" | "end-hold" (K = relevant call of the agent, roots: installation + socket, at which the agent itself is held)
+	Mode  string `json:"mode"`            // "kill" | "live" | "hold-kill" | "watched-run" | "end-hold" (K = relevant call of the agent, roots: installation + socket, at which the agent itself is held)
 	DAG   string `json:"dag"`             // name of the definition
 	Prior bool   `json:"prior"`           // a completed run of the same DAG precedes
 	K     int    `json:"k"`               // kill: relevant call number (roots: installation + socket); live: number of the call on a marker file the run is held at (roots: markers only)
@@ -64,6 +64,7 @@ type group struct {
 	classes map[string]int // per call class: max count over the baselines
 	pauses  int            // number of calls the step scripts make on their marker files (= hold points of part b)
 	holds   []int          // the marker calls that open the file for the "begin"/"end" line: hold points of the hold-kill family
+	killKs  []int          // cheap DAGs: the handful of kill points (end-of-run phase of the first baseline)
 	endFrom int            // smallest call number (over the baselines) that follows the last call on a marker file or step log: start of the end-of-run phase
 	before  string         // state summary before the run / after an un-killed run
 	after   string
@@ -128,6 +129,17 @@ func (hn *harness) fresh1(g *group, tag string) (in *inst, mdir string, skip map
 // call classes whose number legitimately differs between executions of one scenario
 var timingDependent = map[string]bool{"write(agent-log)": true, "write(history)": true, "unlink(socket)": true, "rmdir(socket)": true}
 
+// varies: the number of calls of this class may differ between executions of the scenario. For the wide DAG
+// the supervisor's fd table loses some step-log descriptors (over a hundred threads open and close files at
+// once; a close seen late removes the entry of a descriptor number that has been reused meanwhile), so the
+// later calls on those step logs are not numbered: a limitation of the tracer, not a behaviour of the tracee.
+func (g *group) varies(class string) bool {
+	if timingDependent[class] {
+		return true
+	}
+	return g.def.Cheap && strings.HasSuffix(class, "(step-log)")
+}
+
 // prepare runs the scenario three times un-killed under `vtrace --log`.
 func (hn *harness) prepare(def *dagDef, prior bool, idx int) (*group, error) {
 	g := &group{def: def, prior: prior, idx: idx, classes: map[string]int{}}
@@ -137,7 +149,11 @@ func (hn *harness) prepare(def *dagDef, prior bool, idx int) (*group, error) {
 	}
 	var seqs []string
 	crashes := 0
-	for i := 0; i < 3; i++ {
+	nBase := 3
+	if def.Cheap {
+		nBase = 2
+	}
+	for i := 0; i < nBase; i++ {
 		in, mdir, skip, err := hn.fresh(g, "base")
 		if err != nil {
 			return nil, err
@@ -189,7 +205,7 @@ func (hn *harness) prepare(def *dagDef, prior bool, idx int) (*group, error) {
 			// how often the agent writes its log and its status, and whether the socket server's
 			// goroutine still gets to its own os.Remove before the process exits, depends on timing;
 			// everything else must agree
-			if !timingDependent[k] {
+			if !g.varies(k) {
 				ks = append(ks, fmt.Sprintf("%s*%d", k, cc[k]))
 			}
 		}
@@ -213,6 +229,26 @@ func (hn *harness) prepare(def *dagDef, prior bool, idx int) (*group, error) {
 				}
 			}
 		}
+		if i == 0 && def.MinRecord > 0 {
+			n := 0
+			for _, r := range in.runsExcept(skip) {
+				for _, f := range r.Files {
+					if f.LastLen > n {
+						n = f.LastLen
+					}
+				}
+			}
+			if hn.fl.Shard == 0 || hn.fl.Replay != "" {
+				hn.res.Count("final_record_bytes:"+def.Name, int64(n))
+			}
+			if n <= def.MinRecord {
+				in.cleanup(mdir)
+				return nil, fmt.Errorf("DAG %s is there for status records of more than %d bytes, the final record of its run has %d", def.Name, def.MinRecord, n)
+			}
+		}
+		if i == 0 && def.Cheap {
+			g.killKs = endPhaseKills(in.lay, rr.trace)
+		}
 		if i == 0 {
 			g.pauses = np
 			g.holds = holds
@@ -223,8 +259,10 @@ func (hn *harness) prepare(def *dagDef, prior bool, idx int) (*group, error) {
 		}
 		in.cleanup(mdir)
 	}
-	if seqs[0] != seqs[1] || seqs[0] != seqs[2] {
-		return nil, fmt.Errorf("scenario not deterministic: the baselines of %s disagree on the calls they make (kind x file class, agent-log and status writes aside):\n%s\n%s\n%s", def.Name, seqs[0], seqs[1], seqs[2])
+	for _, q := range seqs[1:] {
+		if q != seqs[0] {
+			return nil, fmt.Errorf("scenario not deterministic: the baselines of %s disagree on the calls they make (kind x file class, agent-log and status writes aside):\n%s", def.Name, strings.Join(seqs, "\n"))
+		}
 	}
 	if g.classes["create(history)"] != 1 || g.classes["bind(socket)"] != 1 || g.classes["listen(socket)"] != 1 ||
 		g.classes["create(history-compacted)"] != 1 || g.classes["unlink(history)"] != 1 || g.classes["unlink(socket)"] < 2 {
@@ -311,6 +349,9 @@ func main() {
 			if replay != nil && (replay.DAG != def.Name || replay.Prior != prior) {
 				continue
 			}
+			if def.Cheap && prior {
+				continue
+			}
 			g, err := hn.prepare(def, prior, gi)
 			if err != nil {
 				res.CheckError("%v", err)
@@ -319,6 +360,40 @@ func main() {
 			if fl.Shard == 0 || replay != nil {
 				res.Count(fmt.Sprintf("relevant_calls:%s:prior=%v", def.Name, prior), int64(g.n))
 				res.Count(fmt.Sprintf("pause_points:%s", def.Name), int64(g.pauses))
+			}
+			// an un-killed, untraced run watched by a long-lived client (reads while it runs), then final truth
+			if !prior {
+				mb := member{Mode: "watched-run", DAG: def.Name, Prior: prior}
+				if (replay != nil && *replay == mb) || (replay == nil && fl.Mine(gi*7+3)) {
+					if err := hn.watchedRun(g, mb, replay != nil); err != nil {
+						res.CheckError("%v", err)
+					}
+				}
+			}
+			if def.Cheap {
+				// only a handful of kill points in the end-of-run phase
+				if fl.Shard == 0 || replay != nil {
+					res.Count(fmt.Sprintf("cheap_kill_points:%s", def.Name), int64(len(g.killKs)))
+				}
+				for i, k := range g.killKs {
+					mb := member{Mode: "kill", DAG: def.Name, Prior: prior, K: k}
+					if replay != nil {
+						if replay.Mode != "kill" {
+							continue
+						}
+						mb.K = replay.K
+						if i > 0 {
+							continue
+						}
+					} else if !fl.Mine(gi*131 + 17 + i) {
+						continue
+					}
+					if err := hn.kill(g, mb, replay != nil); err != nil {
+						res.CheckError("%v", err)
+					}
+				}
+				_ = os.RemoveAll(g.dir)
+				continue
 			}
 			// (b) live observations: one per call of a step script on its marker file, on the scenario without prior history
 			if !prior {
